@@ -123,6 +123,7 @@ def r1_r2(ctx, kind):
     if m is None:
         raise Unestablished("no rank dispatch in %s::update" % kind, c.loc(fn))
     names = [d["name"] for d in arms.scrut_names(c, m)]
+    arms.guarded_arms(ctx, "R03.1", fn, m, kind)
     pn = [pat_binds(p)[0][0] for p in fn["params"]]
     W, G = pn[-2], pn[-1]
     expected_roots = [W, G] + ["self." + s for s in STATE[kind]]
@@ -140,7 +141,7 @@ def r1_r2(ctx, kind):
             ctx.bad("R03.1", inst, "unexpected-arm", where, "arm mixes ranks or is not Single/Double/Triple")
             continue
         try:
-            sem, r = arms.arm_semantics(c, ra)
+            sem, r = arms.arm_semantics(c, ra, env=arms.fn_level_env(c, fn, upto=m))
         except (Unrecognised, ValueError) as e:
             ctx.bad("R03.1", inst, "arm-not-recognised-as-elementwise", where,
                     "cannot establish that the %s arm updates every element with aligned indices: %s" % (rank, e))
@@ -364,6 +365,7 @@ def r5(ctx, kind, fn, m, sems, W, G):
                 if nm == "stepnr":
                     ev.env[hid] = AV(Fr(1), Fr(2 ** 31 - 1), ty="i32")
         try:
+            e2.eval_fn_lets(ev, fn, m)
             ev.eval(r.body) if r.body.get("k") != "blk" else ev.block(r.body["b"])
         except ValueError as e:
             ctx.unest("R03.5", inst0, "abstract interpreter: %s" % e, c.loc(fn, r.body))
